@@ -78,3 +78,12 @@ package model
 //@   ensures[next]  its.Delimiter == old(its.Delimiter) + 1 && its.Era == old(its.Era) && its.Lamport == old(its.Lamport) && its.CUID == old(its.CUID)
 //@   ensures[others] forall p *Timestamp :: p != its && old(allocated(p)) ==> p.Era == old(p.Era) && p.Lamport == old(p.Lamport) && p.CUID == old(p.CUID) && p.Delimiter == old(p.Delimiter)
 //@   modifies Timestamp.Era, Timestamp.Lamport, Timestamp.CUID, Timestamp.Delimiter
+
+// Hash is the identifier key of an element: the decimal renderings of Era, Lamport, Delimiter
+// followed by the client id (dec(n) is the engine's injective, separator-free model of %d).
+//@ pred tsKey(era uint32, lamport uint64, delim uint32, cuid string) = strcat(dec(era), dec(lamport), dec(delim), cuid)
+//@ func (*Timestamp).Hash
+//@   mode math
+//@   props C15
+//@   ensures[format] result == tsKey(its.Era, its.Lamport, its.Delimiter, its.CUID)
+//@   modifies nothing
